@@ -27,6 +27,11 @@ def run(ctx):
             raise vtlib.InfraError('RWLock.tla: the pre-repair unlock variant is not detected (vacuous model)')
     ctx.build_lib()
     synccheck.run_modes(ctx, MODES_Q if ctx.tier == 'quick' else MODES_T, 'Trace_RwA', 'Trace_RwA.cfg')
+    # spec -> code: every behaviour of the abstract readers-writer lock up to a length bound, enumerated by TLC, replayed by the conductor
+    ln = 4 if ctx.tier == 'quick' else 5
+    for kind, prim in (('rw', 'crw'), ('qrw', 'cqrw')):
+        path, n = synccheck.tlc_scripts(ctx, kind, ln)
+        synccheck.run_modes(ctx, [(prim, n)], 'Trace_RwA', 'Trace_RwA.cfg', vcpus=1, extra_args=['--scripts', path])
     # anti-vacuity of the conformance part: readers must actually have shared the lock in some execution
     ek = ctx.extra.get('event_kinds', {})
     ctx.extra['cs_entries'] = ek.get('CsEnter', 0)
